@@ -419,7 +419,8 @@ Qed.
 Lemma D_channel_close cfg s c h : CI s -> HI s -> D s (channel_close cfg s c h).
 Proof.
   intros Hci H. unfold channel_close. destruct (get_chan s c h) as [ch|] eqn:Ech; [|apply D_refl].
-  eapply D_trans; [|apply D_FX; [apply FR_upd_chan; reflexivity|apply XS_upd_chan]].
+  (* the message being assembled is dropped: it has no key yet *)
+  eapply D_trans; [|apply D_upd_chan; intros; [apply le_ms_nil|apply le_ms_refl]].
   set (s2 := upd_chan (fold_left (fun s cm => consumer_stop s c h (c_tag cm)) (ch_consumers ch) s) c h (fun ch => ch <| ch_consumers := [] |>)).
   assert (F2 : FR s s2).
   { subst s2. eapply FR_trans; [|apply FR_upd_chan; reflexivity]. apply FR_fold. intros; apply FR_consumer_stop. }
